@@ -152,9 +152,9 @@ Section Steps.
     vget name t = None -> vm_new_conn hash t name cid ts sign ue uc user eok = (t, VErrNoListener).
   Proof. unfold vm_new_conn. now intros ->. Qed.
 
-  Lemma vnh_notified_inv s name ts sign pre user sid s' n sid' :
-    vnh_handle_visitor hash s name ts sign pre user sid = (s', NhNotified n sid') ->
-    pre = false /\ n = name /\ sid' = sid /\
+  Lemma vnh_notified_inv s name ts sign pre user sid dl s' n sid' :
+    vnh_handle_visitor hash s name ts sign pre user sid dl = (s', NhNotified n sid') ->
+    pre = false /\ dl = true /\ n = name /\ sid' = sid /\
     exists cfg, vget name (nh_cfgs s) = Some cfg /\ sign = hash (nc_sk cfg) ts /\ vallowed (nc_allow cfg) user = true /\
                 s' = {| nh_cfgs := nh_cfgs s; nh_sessions := vset sid name (nh_sessions s) |}.
   Proof.
@@ -164,11 +164,12 @@ Section Steps.
     - destruct (vget name (nh_cfgs s)) as [cfg|] eqn:G; [|discriminate].
       destruct (bytes_eqb sign (hash (nc_sk cfg) ts)) eqn:Hs; cbn [negb]; [|discriminate].
       rewrite refusal_test. destruct (vallowed (nc_allow cfg) user) eqn:Ha; cbn [negb]; [|discriminate].
+      destruct dl; [|discriminate].
       intros [= <- <- <-]. apply v_bytes_eqb_eq in Hs. repeat split. exists cfg. now repeat split.
   Qed.
 
-  Lemma vnh_not_notified_same s name ts sign pre user sid s' o :
-    vnh_handle_visitor hash s name ts sign pre user sid = (s', o) ->
+  Lemma vnh_not_notified_same s name ts sign pre user sid dl s' o :
+    vnh_handle_visitor hash s name ts sign pre user sid dl = (s', o) ->
     (forall n x, o <> NhNotified n x) -> s' = s.
   Proof.
     unfold vnh_handle_visitor. destruct pre.
@@ -177,19 +178,20 @@ Section Steps.
     - destruct (vget name (nh_cfgs s)) as [cfg|]; [|now intros [= <- <-]].
       destruct (negb _); [now intros [= <- <-]|].
       destruct (_ && _); [now intros [= <- <-]|].
+      destruct dl; [|now intros [= <- <-]].
       intros [= <- <-] H. exfalso. now apply (H name sid).
   Qed.
 
-  Lemma vnh_precheck s name ts sign user sid :
-    exists o, vnh_handle_visitor hash s name ts sign true user sid = (s, o) /\
+  Lemma vnh_precheck s name ts sign user sid dl :
+    exists o, vnh_handle_visitor hash s name ts sign true user sid dl = (s, o) /\
               (o = NhPreOk \/ o = NhErrNoServer \/ o = NhErrUser).
   Proof.
     unfold vnh_handle_visitor. destruct (vget name (nh_cfgs s)) as [cfg|]; [|eauto].
     destruct (_ && _); eauto.
   Qed.
 
-  Lemma vnh_precheck_ok_inv s name ts sign user sid s' :
-    vnh_handle_visitor hash s name ts sign true user sid = (s', NhPreOk) ->
+  Lemma vnh_precheck_ok_inv s name ts sign user sid dl s' :
+    vnh_handle_visitor hash s name ts sign true user sid dl = (s', NhPreOk) ->
     exists cfg, vget name (nh_cfgs s) = Some cfg /\ vallowed (nc_allow cfg) user = true.
   Proof.
     unfold vnh_handle_visitor. destruct (vget name (nh_cfgs s)) as [cfg|]; [|discriminate].
@@ -197,8 +199,8 @@ Section Steps.
     intros _. now exists cfg.
   Qed.
 
-  Lemma vnh_no_server s name ts sign pre user sid :
-    vget name (nh_cfgs s) = None -> vnh_handle_visitor hash s name ts sign pre user sid = (s, NhErrNoServer).
+  Lemma vnh_no_server s name ts sign pre user sid dl :
+    vget name (nh_cfgs s) = None -> vnh_handle_visitor hash s name ts sign pre user sid dl = (s, NhErrNoServer).
   Proof. unfold vnh_handle_visitor. intros ->. now destruct pre. Qed.
 End Steps.
 
@@ -437,12 +439,12 @@ Proof.
     destruct (vget n (s_vm s')), (vget n (s_vm s)); cbn in Hv; congruence.
 Qed.
 
-Lemma vnh_handle_visitor_cfgs hash s name ts sign pre user sid :
-  nh_cfgs (fst (vnh_handle_visitor hash s name ts sign pre user sid)) = nh_cfgs s.
+Lemma vnh_handle_visitor_cfgs hash s name ts sign pre user sid dl :
+  nh_cfgs (fst (vnh_handle_visitor hash s name ts sign pre user sid dl)) = nh_cfgs s.
 Proof.
   unfold vnh_handle_visitor. destruct pre; destruct (vget name (nh_cfgs s)); try reflexivity.
   - destruct (_ && _); reflexivity.
-  - destruct (negb _); [reflexivity|]. destruct (_ && _); reflexivity.
+  - destruct (negb _); [reflexivity|]. destruct (_ && _); [reflexivity|]. destruct dl; reflexivity.
 Qed.
 
 Lemma sys_reg_none_iff s name : sys_tables_ok s -> (sys_reg s name = None <-> vget name (s_pxys s) = None).
@@ -469,7 +471,7 @@ Section Refinement.
     sys_inv s -> sys_abs s sp ->
     sys_inv (fst (sys_step hash s op)) /\ sys_abs (fst (sys_step hash s op)) (spec_step sp op).
   Proof.
-    intros Hinv Habs. destruct op as [rid user|rid|rid k name sk allow|rid name|rid name ts sign ue uc cid eok|rid name ts sign pre sid|sid|name].
+    intros Hinv Habs. destruct op as [rid user|rid|rid k name sk allow|rid name|rid name ts sign ue uc cid eok|rid name ts sign pre sid dl|sid|name].
     - (* SLogin *)
       destruct (logout_refines s sp rid Hinv Habs) as ([Hnd Hok] & _ & Hu & Hr). cbn [sys_step fst spec_step].
       split; [split; [exact Hnd|exact Hok]|]. split.
@@ -535,9 +537,9 @@ Section Refinement.
       apply vm_new_conn_sig.
     - (* SNatHole *)
       cbn [sys_step spec_step]. destruct (vget rid (s_users s)) as [b|]; [|cbn; now split].
-      destruct (vnh_handle_visitor hash (s_nh s) name ts sign pre b sid) as [nh' o] eqn:E. cbn [fst].
+      destruct (vnh_handle_visitor hash (s_nh s) name ts sign pre b sid dl) as [nh' o] eqn:E. cbn [fst].
       apply (same_sig_refines s); try reflexivity; try assumption.
-      cbn [s_nh]. replace nh' with (fst (vnh_handle_visitor hash (s_nh s) name ts sign pre b sid)) by now rewrite E.
+      cbn [s_nh]. replace nh' with (fst (vnh_handle_visitor hash (s_nh s) name ts sign pre b sid dl)) by now rewrite E.
       apply vnh_handle_visitor_cfgs.
     - (* SSessionEnd *)
       cbn [sys_step spec_step fst]. apply (same_sig_refines s); try reflexivity; assumption.
@@ -601,7 +603,7 @@ Theorem owner_event_only_on_admission op o e :
   In e (sys_events op o) ->
   match e with
   | EvQueued name cid => exists rid ts sign ue uc eok, op = SVisitorConn rid name ts sign ue uc cid eok /\ o = OVis VOk
-  | EvSid name sid => exists rid n ts sign pre x, op = SNatHole rid n ts sign pre x /\ o = ONh (NhNotified name sid)
+  | EvSid name sid => exists rid n ts sign pre x dl, op = SNatHole rid n ts sign pre x dl /\ o = ONh (NhNotified name sid)
   | EvBackend name cid => exists c, op = SAccept name /\ o = OAccepted c /\ vc_id c = cid
   end.
 Proof.
@@ -639,8 +641,8 @@ Section Clauses.
   Qed.
 
   (* the NAT-hole request proper *)
-  Theorem natole_session_implies_key_and_user h rid name ts sign pre sid s' n sid' :
-    sys_step hash (St h) (SNatHole rid name ts sign pre sid) = (s', ONh (NhNotified n sid')) ->
+  Theorem natole_session_implies_key_and_user h rid name ts sign pre sid dl s' n sid' :
+    sys_step hash (St h) (SNatHole rid name ts sign pre sid dl) = (s', ONh (NhNotified n sid')) ->
     pre = false /\ n = name /\ sid' = sid /\
     exists r user,
       sp_reg (spec_of h) name = Some r /\ is_hole (vr_kind r) = true /\
@@ -648,34 +650,34 @@ Section Clauses.
   Proof.
     destruct (state_refines_spec hash h) as [[_ Hok] [Hau Har]].
     cbn [sys_step]. rewrite Hau. destruct (sp_user (spec_of h) rid) as [user|]; [|discriminate].
-    destruct (vnh_handle_visitor hash (s_nh (St h)) name ts sign pre user sid) as [nh' o] eqn:E.
-    intros [= <- ->]. apply vnh_notified_inv in E as (-> & -> & -> & cfg & G & Hs & Ha & _).
+    destruct (vnh_handle_visitor hash (s_nh (St h)) name ts sign pre user sid dl) as [nh' o] eqn:E.
+    intros [= <- ->]. apply vnh_notified_inv in E as (-> & _ & -> & -> & cfg & G & Hs & Ha & _).
     repeat split. destruct (nh_entry_reg _ _ _ Hok G) as (o & k & Hr & Hk). rewrite Har in Hr.
     eexists _, user. split; [exact Hr|]. split; [exact Hk|]. split; [reflexivity|].
     split; [exact Hs|]. now apply vallowed_spec.
   Qed.
 
   (* a pre-check changes nothing and notifies nobody, whatever it carries *)
-  Theorem precheck_never_bridges h rid name ts sign sid :
-    exists o, sys_step hash (St h) (SNatHole rid name ts sign true sid) = (St h, o) /\
-              sys_events (SNatHole rid name ts sign true sid) o = [] /\
+  Theorem precheck_never_bridges h rid name ts sign sid dl :
+    exists o, sys_step hash (St h) (SNatHole rid name ts sign true sid dl) = (St h, o) /\
+              sys_events (SNatHole rid name ts sign true sid dl) o = [] /\
               (o = ONoSession \/ o = ONh NhPreOk \/ o = ONh NhErrNoServer \/ o = ONh NhErrUser).
   Proof.
     cbn [sys_step]. destruct (vget rid (s_users (St h))) as [user|]; [|exists ONoSession; repeat split; tauto].
-    destruct (vnh_precheck hash (s_nh (St h)) name ts sign user sid) as (o & -> & Ho).
+    destruct (vnh_precheck hash (s_nh (St h)) name ts sign user sid dl) as (o & -> & Ho).
     exists (ONh o). rewrite sys_eta. split; [reflexivity|].
     destruct Ho as [->|[->| ->]]; cbn; split; tauto.
   Qed.
 
   (* a positive pre-check answer is given only to an allowed user of a live xtcp proxy *)
-  Theorem precheck_ok_implies_user h rid name ts sign sid s' :
-    sys_step hash (St h) (SNatHole rid name ts sign true sid) = (s', ONh NhPreOk) ->
+  Theorem precheck_ok_implies_user h rid name ts sign sid dl s' :
+    sys_step hash (St h) (SNatHole rid name ts sign true sid dl) = (s', ONh NhPreOk) ->
     exists r user, sp_reg (spec_of h) name = Some r /\ is_hole (vr_kind r) = true /\
                    sp_user (spec_of h) rid = Some user /\ (In user (vr_allow r) \/ In vstar (vr_allow r)).
   Proof.
     destruct (state_refines_spec hash h) as [[_ Hok] [Hau Har]].
     cbn [sys_step]. rewrite Hau. destruct (sp_user (spec_of h) rid) as [user|]; [|discriminate].
-    destruct (vnh_handle_visitor hash (s_nh (St h)) name ts sign true user sid) as [nh' o] eqn:E.
+    destruct (vnh_handle_visitor hash (s_nh (St h)) name ts sign true user sid dl) as [nh' o] eqn:E.
     intros [= <- ->]. apply vnh_precheck_ok_inv in E as (cfg & G & Ha).
     destruct (nh_entry_reg _ _ _ Hok G) as (o & k & Hr & Hk). rewrite Har in Hr.
     eexists _, user. split; [exact Hr|]. split; [exact Hk|]. split; [reflexivity|]. now apply vallowed_spec.
@@ -686,7 +688,7 @@ Section Clauses.
   Theorem refused_leaves_no_state s op s' o :
     sys_step hash s op = (s', o) -> sout_refused o = true -> s' = s.
   Proof.
-    destruct op as [rid user|rid|rid k name sk allow|rid name|rid name ts sign ue uc cid eok|rid name ts sign pre sid|sid|name];
+    destruct op as [rid user|rid|rid k name sk allow|rid name|rid name ts sign ue uc cid eok|rid name ts sign pre sid dl|sid|name];
       cbn [sys_step].
     - intros [= <- <-]. discriminate.
     - intros [= <- <-]. discriminate.
@@ -701,7 +703,7 @@ Section Clauses.
       intros [= <- <-] Hr. cbn in Hr. apply vm_new_conn_not_ok_same in E; [|intros ->; discriminate].
       subst vm'. apply sys_eta.
     - destruct (vget rid (s_users s)) as [user|]; [|now intros [= <- <-]].
-      destruct (vnh_handle_visitor hash (s_nh s) name ts sign pre user sid) as [nh' v] eqn:E.
+      destruct (vnh_handle_visitor hash (s_nh s) name ts sign pre user sid dl) as [nh' v] eqn:E.
       intros [= <- <-] Hr. cbn in Hr. apply vnh_not_notified_same in E; [|intros n x ->; discriminate].
       subst nh'. apply sys_eta.
     - intros [= <- <-]. discriminate.
@@ -723,8 +725,8 @@ Section Clauses.
     (forall rid ts sign ue uc cid eok,
         exists o, sys_step hash (St h) (SVisitorConn rid name ts sign ue uc cid eok) = (St h, o) /\
                   (o = OVis VErrNoListener \/ o = OVisErrNoControl)) /\
-    (forall rid ts sign pre sid,
-        exists o, sys_step hash (St h) (SNatHole rid name ts sign pre sid) = (St h, o) /\
+    (forall rid ts sign pre sid dl,
+        exists o, sys_step hash (St h) (SNatHole rid name ts sign pre sid dl) = (St h, o) /\
                   (o = ONh NhErrNoServer \/ o = ONoSession)).
   Proof.
     destruct (state_refines_spec hash h) as [[_ Hok] [Hau Har]]. intros Hnone. rewrite <- Har in Hnone.
@@ -818,8 +820,8 @@ Section Clauses.
 
   Theorem star_admits_any_user_with_key_hole s name cfg ts user sid :
     vget name (nh_cfgs s) = Some cfg -> In vstar (nc_allow cfg) ->
-    (exists s', vnh_handle_visitor hash s name ts (hash (nc_sk cfg) ts) false user sid = (s', NhNotified name sid)) /\
-    vnh_handle_visitor hash s name ts (hash (nc_sk cfg) ts) true user sid = (s, NhPreOk).
+    (exists s', vnh_handle_visitor hash s name ts (hash (nc_sk cfg) ts) false user sid true = (s', NhNotified name sid)) /\
+    (forall dl, vnh_handle_visitor hash s name ts (hash (nc_sk cfg) ts) true user sid dl = (s, NhPreOk)).
   Proof.
     intros G Hs. unfold vnh_handle_visitor. rewrite G, v_bytes_eqb_refl. cbn [negb].
     rewrite refusal_test. rewrite (proj2 (vallowed_spec _ _) (or_intror Hs)). cbn [negb]. eauto.
@@ -828,7 +830,7 @@ Section Clauses.
   (* and, more generally, key + allowed user is also sufficient (the checks refuse nothing else) *)
   Theorem key_and_user_admitted_hole s name cfg ts user sid :
     vget name (nh_cfgs s) = Some cfg -> vallowed (nc_allow cfg) user = true ->
-    exists s', vnh_handle_visitor hash s name ts (hash (nc_sk cfg) ts) false user sid = (s', NhNotified name sid).
+    exists s', vnh_handle_visitor hash s name ts (hash (nc_sk cfg) ts) false user sid true = (s', NhNotified name sid).
   Proof.
     intros G Ha. unfold vnh_handle_visitor. rewrite G, v_bytes_eqb_refl. cbn [negb].
     rewrite refusal_test, Ha. cbn [negb]. eauto.
@@ -919,7 +921,7 @@ Section Trace.
       destruct (Hn n) as [Hn1 Hn2]. destruct (owned_in (s_pxys s) rid n).
       - specialize (Hok' n). rewrite (Hn1 eq_refl) in Hok'. destruct Hok'; congruence.
       - destruct (Hn2 eq_refl) as (_ & Hv & _). rewrite Hv in G. now exists b'. }
-    destruct op as [rid user|rid|rid k name sk allow|rid name|rid name ts sign ue uc cid eok|rid name ts sign pre sid|sid|name];
+    destruct op as [rid user|rid|rid k name sk allow|rid name|rid name ts sign ue uc cid eok|rid name ts sign pre sid dl|sid|name];
       cbn [sys_step] in E.
     - injection E as <- <-. left. cbn [s_vm] in G'. now apply (Hlogout rid).
     - injection E as <- <-. left. now apply (Hlogout rid).
@@ -990,3 +992,15 @@ Section Trace.
     destruct (trace_inv_run h _ H0) as (_ & _ & _ & Hb). apply Hb.
   Qed.
 End Trace.
+
+(* a NAT-hole request leaves a session behind only when the owner was notified: refusals, pre-checks and
+   hand-overs nobody received (owner gone, NatHoleTimeout elapsed) return the state unchanged *)
+Theorem nathole_no_session_unless_notified hash s rid name ts sign pre sid dl s' o :
+  sys_step hash s (SNatHole rid name ts sign pre sid dl) = (s', o) ->
+  (forall n x, o <> ONh (NhNotified n x)) -> s' = s /\ sys_events (SNatHole rid name ts sign pre sid dl) o = [].
+Proof.
+  cbn [sys_step]. destruct (vget rid (s_users s)) as [user|]; [|now intros [= <- <-]].
+  destruct (vnh_handle_visitor hash (s_nh s) name ts sign pre user sid dl) as [nh' v] eqn:E.
+  intros [= <- <-] H. apply vnh_not_notified_same in E; [|intros n x ->; now apply (H n x)].
+  subst nh'. split; [apply sys_eta|]. destruct v; try reflexivity. exfalso. now apply (H name0 sid0).
+Qed.
